@@ -1811,3 +1811,156 @@ theorem evalQ_perm {tbl : PTable} {docs docs' : List Rec} (hp : docs.Perm docs')
     rw [errCountE_ok hc, errCountE_ok hc', (hp.filter _).length_eq, (hp.filter _).length_eq]
 
 end Stats
+
+namespace Stats
+
+/-! ## part 7 — one race store directory over a history of store / find / list -/
+
+theorem dirAfter_append (m : RaceDir) (h1 h2 : List REv) : dirAfter m (h1 ++ h2) = dirAfter (dirAfter m h1) h2 := by
+  unfold dirAfter; rw [List.foldl_append]
+
+theorem raceRun_cons (m : RaceDir) (e : REv) (es : List REv) :
+    raceRun m (e :: es) = (match dirAns m e with | some a => [a] | none => []) ++ raceRun (dirStep m e) es := by
+  conv_lhs => unfold raceRun
+  cases dirAns m e <;> rfl
+
+theorem raceRun_append (m : RaceDir) (h1 h2 : List REv) :
+    raceRun m (h1 ++ h2) = raceRun m h1 ++ raceRun (dirAfter m h1) h2 := by
+  induction h1 generalizing m with
+  | nil => rfl
+  | cons e es ih =>
+    rw [List.cons_append, raceRun_cons, raceRun_cons, ih, List.append_assoc]
+    rfl
+
+theorem dirFind_store_same (m : RaceDir) (id : Str) (d : RaceDoc) : dirFind (dirStore m id d) id = some d := by
+  unfold dirFind dirStore
+  simp
+
+theorem find?_filter_ne (m : RaceDir) (id id' : Str) (h : id' ≠ id) :
+    (m.filter (fun e => e.1 != id)).find? (fun e => e.1 == id') = m.find? (fun e => e.1 == id') := by
+  induction m with
+  | nil => rfl
+  | cons a t ih =>
+    rw [List.filter_cons]
+    by_cases ha : a.1 = id
+    · have h1 : (a.1 != id) = false := by simp [ha]
+      have h2 : (a.1 == id') = false := by
+        apply beq_false_of_ne; rw [ha]; exact fun e => h e.symm
+      rw [h1]; simp only [Bool.false_eq_true, if_false, List.find?_cons, h2]; exact ih
+    · have h1 : (a.1 != id) = true := by simp [ha]
+      rw [h1]; simp only [if_true, List.find?_cons]
+      cases a.1 == id' <;> simp [ih]
+
+theorem dirFind_store_other (m : RaceDir) (id id' : Str) (d : RaceDoc) (h : id' ≠ id) :
+    dirFind (dirStore m id d) id' = dirFind m id' := by
+  unfold dirFind dirStore
+  have : (id == id') = false := beq_false_of_ne (fun e => h e.symm)
+  rw [List.find?_cons]
+  simp only [this, find?_filter_ne m id id' h]
+
+theorem lastStored_snoc (l : List REv) (e : REv) (id : Str) :
+    lastStored (l ++ [e]) id = match e with
+      | .store i d => if i == id then some d else lastStored l id
+      | _ => lastStored l id := by
+  unfold lastStored
+  rw [List.reverse_append, List.reverse_singleton, List.singleton_append, List.findSome?_cons]
+  cases e with
+  | store i d => cases h : (i == id) <;> simp [h]
+  | find i => simp
+  | list n => simp
+
+/-- **reading a race id back yields the document stored last for it** — after any history on the directory -/
+theorem dirFind_after (h : List REv) (id : Str) : dirFind (dirAfter [] h) id = lastStored h id := by
+  induction h using List.reverseRecOn with
+  | nil => rfl
+  | append_singleton l e ih =>
+    rw [dirAfter_append, lastStored_snoc]
+    cases e with
+    | store i d =>
+      show dirFind (dirStore (dirAfter [] l) i d) id = _
+      by_cases hi : id = i
+      · subst hi; rw [dirFind_store_same]; simp
+      · rw [dirFind_store_other _ _ _ _ hi, ih]
+        have : (i == id) = false := beq_false_of_ne (fun e => hi e.symm)
+        simp [this]
+    | find i => exact ih
+    | list n => exact ih
+
+theorem dirStore_nodup {m : RaceDir} (hn : (m.map Prod.fst).Nodup) (id : Str) (d : RaceDoc) :
+    ((dirStore m id d).map Prod.fst).Nodup := by
+  unfold dirStore
+  simp only [List.map_cons, List.nodup_cons]
+  constructor
+  · intro hmem
+    obtain ⟨e, he, hid⟩ := List.mem_map.mp hmem
+    have := (List.mem_filter.mp he).2
+    simp [hid] at this
+  · exact hn.sublist ((List.filter_sublist (l := m)).map Prod.fst)
+
+theorem dirAfter_nodup (h : List REv) : ((dirAfter [] h).map Prod.fst).Nodup := by
+  induction h using List.reverseRecOn with
+  | nil => simp [dirAfter]
+  | append_singleton l e ih =>
+    rw [dirAfter_append]
+    cases e with
+    | store i d => exact dirStore_nodup ih i d
+    | find i => exact ih
+    | list n => exact ih
+
+theorem dirFind_of_mem {m : RaceDir} (hn : (m.map Prod.fst).Nodup) {id : Str} {d : RaceDoc} (h : (id, d) ∈ m) :
+    dirFind m id = some d := by
+  induction m with
+  | nil => cases h
+  | cons a t ih =>
+    simp only [List.map_cons, List.nodup_cons] at hn
+    unfold dirFind
+    rw [List.find?_cons]
+    rcases List.mem_cons.mp h with rfl | ht
+    · simp
+    · have hne : (a.1 == id) = false := by
+        apply beq_false_of_ne
+        intro heq
+        apply hn.1
+        rw [heq]
+        exact List.mem_map.mpr ⟨(id, d), ht, rfl⟩
+      rw [hne]
+      exact ih hn.2 ht
+
+theorem mem_of_dirFind {m : RaceDir} {id : Str} {d : RaceDoc} (h : dirFind m id = some d) : (id, d) ∈ m := by
+  unfold dirFind at h
+  cases hf : m.find? (fun e => e.1 == id) with
+  | none => rw [hf] at h; cases h
+  | some e =>
+    rw [hf] at h
+    simp only [Option.map_some, Option.some.injEq] at h
+    have hm := List.mem_of_find?_eq_some hf
+    have hp := List.find?_some hf
+    have : e = (id, d) := by
+      cases e with
+      | mk a b => simp at hp h; rw [hp, h]
+    rw [← this]; exact hm
+
+/-- `list()` shows, for every listed race id, the document stored last for it; with a large enough
+    `max_results` every id that was ever stored is listed exactly once -/
+theorem dirList_after (h : List REv) (max : Nat) :
+    (∀ id d, (id, d) ∈ dirList (dirAfter [] h) max → lastStored h id = some d) ∧
+    ((dirAfter [] h).length ≤ max → ∀ id d, lastStored h id = some d → (id, d) ∈ dirList (dirAfter [] h) max) ∧
+    ((dirList (dirAfter [] h) max).map Prod.fst).Nodup := by
+  have hn := dirAfter_nodup h
+  have hperm : (List.mergeSort (dirAfter [] h) (fun a b => decide (b.2.ts ≤ a.2.ts))).Perm (dirAfter [] h) := List.mergeSort_perm _ _
+  refine ⟨?_, ?_, ?_⟩
+  · intro id d hmem
+    have h1 : (id, d) ∈ dirAfter [] h := hperm.mem_iff.mp (List.mem_of_mem_take hmem)
+    rw [← dirFind_after]; exact dirFind_of_mem hn h1
+  · intro hlen id d hl
+    rw [← dirFind_after] at hl
+    have h1 := mem_of_dirFind hl
+    unfold dirList
+    rw [List.take_of_length_le (by rw [List.length_mergeSort]; exact hlen)]
+    exact hperm.mem_iff.mpr h1
+  · unfold dirList
+    have h2 : ((List.mergeSort (dirAfter [] h) (fun a b => decide (b.2.ts ≤ a.2.ts))).map Prod.fst).Nodup :=
+      (hperm.map Prod.fst).nodup_iff.mpr hn
+    exact h2.sublist ((List.take_sublist _ _).map Prod.fst)
+
+end Stats
